@@ -14,6 +14,7 @@ import os
 
 from vt import core
 from vt.main import decide
+from translate import imports_tr
 
 BASE = "__base__"
 BASE_NAMES = ["ID", "STRING", "BOOL", "INT", "FLOAT", "STRICTFLOAT", "NUMBER", "BASETYPE", "OBJECT"]
@@ -88,6 +89,18 @@ def load_order(fsm, main):
     seen.add(main)
     go(main, [])
     return order, missing, backs
+
+
+def harmful_back_import(fsm, main):
+    """Negation of the Coq predicate `safe`: a followed import (cur, a) of a grammar still being loaded
+    such that some unqualified name written in cur is not cur's own, not a built-in, and defined by a."""
+    order, missing, backs = load_order(fsm, main)
+    for cur, a in backs:
+        for r in fsm[cur]["rules"]:
+            for kind, name in r["items"]:
+                if "." not in name and not defines(fsm, cur, name) and name not in BASE_NAMES and defines(fsm, a, name):
+                    return True
+    return False
 
 
 def classify(fsm, main):
@@ -298,10 +311,10 @@ def F(ns, imports, rules):
 
 def corpus_cases():
     cs = []
-    # the documented example: qualified rule reference overrides the search order (fixed ef17d5e)
+    # the documented example: qualified rule reference overrides the search order (fixed 3299436)
     cs.append(build_case([F("a", ["component.types"], [("MyRule", [("r", "component.types.List"), ("r", "List"), ("c", "component.types.List")]), ("List", [])]),
                           F("component.types", [], [("List", [])])], False))
-    # the same file imported under odd spellings is one namespace (fixed d72b434)
+    # the same file imported under odd spellings is one namespace (fixed 87d10e6)
     cs.append(build_case([F("a", ["p.b", "p..b", ".p.b", "p.c"], [("Main", [("r", "X"), ("c", "a.Main"), ("r", "INT")])]),
                           F("p.b", ["c"], [("X", [("r", "Y"), ("r", "INT")])]),
                           F("p.c", [], [("Y", []), ("INT", [])])], False))
@@ -423,6 +436,9 @@ def compare(case, o, mv):
         sim = ";".join("%s>%s" % (core.canon_text(a), core.canon_text(b)) for a, b in load_order(fs_map(case), case["mainns"])[2])
         if m["B"] != sim:
             diffs.append("B: classifier simulation %r model %r" % (sim, m["B"]))
+        # the theorem's hypothesis `safe` (Coq) = no harmful back import by the classifier's rule
+        if m["F"] != ("F" if harmful_back_import(fs_map(case), case["mainns"]) else "T"):
+            diffs.append("F: classifier and the model's `safe` differ (model %s)" % m["F"])
         for k in ("S", "I", "Q"):
             if m[k] != i[k]:
                 diffs.append("%s: impl %r model %r" % (k, i[k], m[k]))
@@ -568,7 +584,7 @@ def exhaustive_cases():
 
 
 def run(chk):
-    chk.prove([])
+    chk.prove([imports_tr.translate])
     n = 900 if chk.thorough else 130
     cases = corpus_cases()
     ncorpus = len(cases)
@@ -609,7 +625,7 @@ def run(chk):
                        "[Class]; 30% of cases also unresolvable/foreign names); the real loader's namespaces, import lists, creation counts, per-reference resolved "
                        "classes, metamodel[name] and parses of texts exercising each reachable reference are compared with the Coq model and judged by the "
                        "documented resolution; non-trivial = at least two files loaded and at least one reference; distinct by (files, main)")
-    chk.assumptions += ["Model/Imports.v transcribes metamodel.py namespaces/_new_import/__getitem__/_cls_fqn and the visit order of lang.py; tied by the correspondence only (no translator)",
+    chk.assumptions += ["Model/Imports.v transcribes metamodel.py namespaces/_new_import/__getitem__/_cls_fqn and the visit order of lang.py; look-up order, qualified split, import registration/normalisation, initial import list and _cls_fqn are translated from the source on every run (imports_tr.py), the rest is compared as text and by the correspondence",
                         "the namespace stack is modelled by the call structure of nested loads",
                         "file names are \\w+ without dots; one physical file per namespace name (no symlinks, case-sensitive file system)"]
     decide(chk, failures, disagreements)
@@ -621,6 +637,10 @@ def replay(rep):
         print(json.dumps(rep, indent=1)[:4000])
         return 0
     o = run_cases([case])[0]
+    try:
+        imports_tr.translate()
+    except Exception as ex:  # noqa: BLE001
+        print("translator:", ex)
     vals, errs = coq_run("C25r", [case])
     print("files:")
     for k, v in case["files"].items():
